@@ -191,14 +191,14 @@ Proof.
   repeat split; try assumption. exists u. reflexivity.
 Qed.
 
-Lemma cascade W i :
-  in_range i -> i_Trej i < i_Tres i -> water_signs W i -> hip_err W i = None ->
+Lemma cascade_gen W i :
+  in_range i -> i_Trej i < i_Tres i -> water_signs W i -> ~ c_mass_rock i == 0 ->
   let o := hip_out W i in
   o_avail o <= o_stored o /\ o_prod o <= o_avail o /\ 0 <= o_prod o /\ 0 <= o_stored o.
 Proof.
-  intros Hr HT [Hh [Hs [Hx Hd]]] He.
+  intros Hr HT [Hh [Hs [Hx Hd]]] Hm.
   destruct (in_range_facts i Hr) as [_ [HTrej [[Hp0 Hp1] [Ha [Ht [_ [Hrhc [[Hf0 _] [Hrr0 _]]]]]]]]].
-  destruct (err_none_facts W i He) as [Hm [Hhn _]].
+  assert (Hhn : ~ c_hnet W i == 0) by lra.
   cbn [hip_out o_avail o_stored o_prod].
   (* stored = rrh*rhc*dT*Vr + hnet*mf0 >= 0 *)
   assert (HVr : 0 <= c_vol_rock i).
@@ -232,6 +232,14 @@ Proof.
   assert (HP0 : 0 <= (S * q) * r) by (apply Qmult_le_0_compat; lra).
   assert (HP1 : 0 <= (S * q) * (1 - r)) by (apply Qmult_le_0_compat; lra).
   rewrite Hp, Hav. split; [|split; [|split]]; lra.
+Qed.
+
+Lemma cascade W i :
+  in_range i -> i_Trej i < i_Tres i -> water_signs W i -> hip_err W i = None ->
+  let o := hip_out W i in
+  o_avail o <= o_stored o /\ o_prod o <= o_avail o /\ 0 <= o_prod o /\ 0 <= o_stored o.
+Proof.
+  intros Hr HT Hw He. destruct (err_none_facts W i He) as [Hm _]. exact (cascade_gen W i Hr HT Hw Hm).
 Qed.
 
 (* the unrestricted clause fails: reservoir colder than the rejection temperature (both in range).
